@@ -5,6 +5,7 @@ import Mercure.Model.Subscriber
 import Mercure.Model.Publish
 import Mercure.Model.Subscribe
 import Mercure.Model.Hub
+import Mercure.Model.Retention
 import Mercure.Generated.Facts
 import Std.Data.HashMap
 /-
@@ -50,6 +51,8 @@ structure DSt where
   sfSubs : Std.HashMap Nat SubSpec := {}
   sfIds  : Std.HashMap Nat Nat := {}     -- harness label ↦ skipfilter id
   hub    : HubSt := { cfg := {}, kind := .local }
+  ret    : RSt := {}
+  retSize : Nat := 0
 
 def sfTest (st : DSt) (label : Nat) (key : Str) : Bool :=
   match st.sfSubs.get? label with
@@ -102,6 +105,31 @@ def showApi (r : ApiResp) : String :=
 def step (st : DSt) (line : String) : DSt × String :=
   let M := matchSpec st.oracle.toT
   match line.splitOn "\t" with
+  | ["ret.new", size] =>
+    match size.toNat? with
+    | some sz => ({ st with ret := {}, retSize := sz }, "ok")
+    | none => (st, "bad-op")
+  | ["ret.pub", id, observed] =>
+    -- acceptor mode: the cleanup coin is the runtime's; the observed key set must be one of the two outcomes
+    match unhex id with
+    | some id =>
+      let u : Update := { id := id, topics := [], priv := false, data := [], type := [], retry := 0 }
+      let a := rPublish st.retSize st.ret (true, u)
+      let b := rPublish st.retSize st.ret (false, u)
+      let obs := (observed.splitOn " ").filterMap String.toNat?
+      if obs == a.db.map (·.1) then ({ st with ret := a }, "ok")
+      else if obs == b.db.map (·.1) then ({ st with ret := b }, "ok")
+      else (st, s!"bad: cleaned={a.db.map (·.1)} skipped={b.db.map (·.1)}")
+    | none => (st, "bad-op")
+  | ["sse.enc", data, id, type, retry] =>
+    match unhex data, unhex id, unhex type, retry.toNat? with
+    | some d, some i, some t, some r => (st, hex ({ data := d, id := i, type := t, retry := r } : Event).encode)
+    | _, _, _, _ => (st, "bad-op")
+  | ["sse.parse", stream] =>
+    match unhex stream with
+    | some s => (st, ";".intercalate ((parseSSE s).map (fun e =>
+        s!"{hex e.id}/{hex e.type}/{match e.retry with | some r => toString r | none => "-"}/{hex e.data}")))
+    | none => (st, "bad-op")
   | ["hub.new", kind, size] =>
     match size.toNat? with
     | some sz => ({ st with hub := { cfg := st.cfg, kind := if kind == "bolt" then .bolt else .local, size := sz,
